@@ -1,23 +1,124 @@
-import GrolProofs.EvalOps
+import GrolProofs.EvalSafeMain
 /-
 C07 — no program can crash the evaluator.
 
-Full statement (about the evaluator model `Grol.E`, every Go panic site of the modelled code is
-an explicit `Stop.goPanic` outcome): evaluation of any program from any reachable state never
-ends in `goPanic`.  `C07.Statement` below states it; the theorems proved so far cover the
-operator layer; the tree-walker part is tied to the implementation by the `eval`
-correspondence suite (ill-typed and boundary programs, four configurations).
+Statement (about the evaluator model `Grol.E`; every Go panic site of the modelled code is an
+explicit `Stop.goPanic` outcome: `getFrame` on a frame that does not exist ("nil environment"),
+`Reference.ObjValue` on a self reference, the cycle guard of `object.Value`): evaluation of any
+syntax tree, with any fuel, from any state a session can reach never ends in `goPanic`.
+
+The proof is an inductive invariant `Inv` of the evaluator state (lean/GrolProofs/EvalInv.lean):
+* `st.cur` and `st.root` are frames of the heap;
+* for every frame `i`: `outer` points to a frame of strictly smaller index and strictly smaller
+  depth; the frame's function and every value in its store are well scoped (`okObj`: every frame
+  index occurring anywhere in the value — `FuncVal.env`, `.ref e _`, also nested in arrays, maps
+  and return wrappers — is below `frames.size`); every reference stored at the top level of the
+  store points to a frame of strictly smaller index and strictly smaller depth;
+* every cached result is well scoped.
+`Inv` holds initially, is preserved by every evaluation (normal or abnormal end) and by the
+recover/Reset of `runInput`; the heap only grows.  Under `Inv` reference chains strictly descend,
+so no self reference and no cycle exists and every frame index that is dereferenced is in range.
 -/
 namespace Grol.E
 
-/-- a reachable state: what `initState` and any sequence of inputs produce (frame indices in
-range, references pointing outward only) — to be refined into an inductive invariant -/
+/-- a reachable state: what `initState` and any sequence of inputs produce -/
 def Reachable (st : St) : Prop :=
   ∃ (cfg : Cfg) (progs : List Node), st = progs.foldl (fun s p => (runInput s p).1) (initState cfg)
 
 /-- the full property -/
 def C07.Statement : Prop :=
   ∀ (fuel : Nat) (prog : Node) (st : St), Reachable st → isGoPanic (outcome (eval fuel prog) st) = false
+
+/-- the invariant holds in the initial state -/
+theorem C07.inv_init (cfg : Cfg) : Inv (initState cfg) := by
+  unfold initState
+  constructor
+  · simp
+  · simp
+  · intro i f hf
+    simp only at hf
+    have hi : i = 0 := by
+      have := lt_of_frame hf
+      simp at this
+      exact this
+    subst hi
+    simp at hf
+    subst hf
+    constructor
+    · intro o ho; cases ho
+    · intro fn hfn; cases hfn
+    · intro k v hm
+      simp only [List.mem_cons, Prod.mk.injEq, List.not_mem_nil, or_false] at hm
+      rcases hm with h | h | h | h | h | h <;> (obtain ⟨_, rfl⟩ := h; exact ⟨by simp [okObj], fun _ _ h => by cases h⟩)
+  · intro c hc
+    cases hc
+
+/-- MAIN THEOREM: from a state satisfying the invariant no evaluation ends in a Go panic -/
+theorem C07.holds : ∀ (fuel : Nat) (prog : Node) (st : St), Inv st →
+    isGoPanic (outcome (eval fuel prog) st) = false :=
+  fun fuel prog st hI => ((spec_all fuel).eval prog st hI).no_panic
+
+/-- the invariant holds again after any evaluation, whether it ended normally or not -/
+theorem C07.inv_preserved : ∀ (fuel : Nat) (prog : Node) (st : St), Inv st →
+    Inv (stateAfter (eval fuel prog) st) :=
+  fun fuel prog st hI => ((spec_all fuel).eval prog st hI).inv_after
+
+/-- the heap of frames only grows -/
+theorem C07.frames_grow (fuel : Nat) (prog : Node) (st : St) (hI : Inv st) :
+    st.frames.size ≤ (stateAfter (eval fuel prog) st).frames.size := by
+  have h := (spec_all fuel).eval prog st hI
+  unfold Post at h
+  rw [stateAfter_eq]
+  split at h
+  · next h1 => simp only [h1]; exact h.2.1
+  · exact h.elim
+  · next h1 => simp only [h1]; exact h.2
+
+/-- a normal result is well scoped in the final state -/
+theorem C07.result_scoped (fuel : Nat) (prog : Node) (st : St) (hI : Inv st) (v : Obj)
+    (h : outcome (eval fuel prog) st = .ok v) :
+    okObj (stateAfter (eval fuel prog) st).frames.size v = true := by
+  have hp := (spec_all fuel).eval prog st hI
+  unfold Post at hp
+  rw [outcome_eq] at h
+  rw [stateAfter_eq]
+  split at hp
+  · next a st' h1 => rw [h1] at h ⊢; cases h; exact hp.2.2
+  · exact hp.elim
+  · next h1 => rw [h1] at h; cases h
+
+/-- one REPL input (evaluation + recover/Reset) preserves the invariant -/
+theorem C07.inv_runInput (st : St) (prog : Node) (hI : Inv st) : Inv (runInput st prog).1 := by
+  unfold runInput
+  split
+  · exact hI
+  · have hI0 : Inv { st with outs := [[]], steps := 0 } := hI.update rfl hI.cur rfl hI.cache
+    have hp := (spec_all defaultFuel).eval prog _ hI0
+    unfold Post runM at hp
+    dsimp only
+    generalize ((eval defaultFuel prog).run { st with outs := [[]], steps := 0 } |>.run) = p at hp
+    obtain ⟨r, st1⟩ := p
+    dsimp only at hp ⊢
+    split
+    · exact hp.1
+    · exact hp.elim
+    · exact (hp.1).update rfl hp.1.root rfl hp.1.cache
+    · exact hp.1
+    · exact hp.1
+
+/-- every reachable state satisfies the invariant -/
+theorem C07.reachable_inv (st : St) (h : Reachable st) : Inv st := by
+  obtain ⟨cfg, progs, rfl⟩ := h
+  have : ∀ (progs : List Node) (s : St), Inv s → Inv (progs.foldl (fun s p => (runInput s p).1) s) := by
+    intro progs
+    induction progs with
+    | nil => intro s hs; exact hs
+    | cons p ps ih => intro s hs; exact ih _ (C07.inv_runInput s p hs)
+  exact this progs _ (C07.inv_init cfg)
+
+/-- C07 in full: no evaluation from a reachable state ends in a Go panic -/
+theorem C07.statement : C07.Statement :=
+  fun fuel prog st h => C07.holds fuel prog st (C07.reachable_inv st h)
 
 /-- integer arithmetic never panics: `/` `%` by zero and negative shift counts are errors -/
 theorem C07.integer_ops_no_panic (op : String) (l r : Int64) (st : St) :
@@ -27,5 +128,8 @@ theorem C07.integer_ops_no_panic (op : String) (l r : Int64) (st : St) :
 /-- the witnesses of the repaired defects evaluate to error objects in the model -/
 example : outcome (evalIntegerInfix "SLASH" 1 0) (initState {}) = .ok (err "division by zero") := rfl
 example : outcome (evalIntegerInfix "LEFTSHIFT" 1 (-1)) (initState {}) = .ok (err "negative shift count") := rfl
+
+/-- non-vacuity: the initial state is reachable -/
+example : Reachable (initState {}) := ⟨{}, [], rfl⟩
 
 end Grol.E
